@@ -22,6 +22,7 @@ import json
 import os
 import random
 import re
+import shutil
 import subprocess
 import typing as T
 from pathlib import Path
@@ -29,7 +30,7 @@ from pathlib import Path
 from . import common
 from .common import MachineryError
 
-REAL_PKGCONFIG = '/usr/bin/pkg-config'
+REAL_PKGCONFIG = shutil.which('pkg-config') or '/usr/bin/pkg-config'
 
 # concrete versions for the abstract versions 1 < 2 < 3 (seed selects one triple)
 VERSION_SETS = [('1.0', '2.0', '3.0'), ('0.9.1', '1.10', '1.10.1'), ('1.2.9', '1.2.10', '2'), ('2.0', '2.1', '10.0')]
@@ -120,6 +121,8 @@ class Project:
 
     def materialise(self) -> None:
         rd = self.rd
+        if not os.access(REAL_PKGCONFIG, os.X_OK):
+            raise MachineryError('C10: no pkg-config binary in this environment (it plays the part of "the system")')
         sp = self.src / 'subprojects'
         pc = self.root / 'pc'
         bindir = self.root / 'bin'
